@@ -331,17 +331,29 @@ Variable X X' : xprogram.
 
 Definition is_some {A} (o : option A) : bool := match o with Some _ => true | None => false end.
 
-(* the image of instruction i is j; a tested type has its row dumped *)
-Definition instr_ok (i j : instr) : bool :=
-  match ren_instr i with Some i' => instr_eqb i' j | None => false end &&
+(* the image of instruction i is j *)
+Definition instr_img (i j : instr) : bool :=
+  match ren_instr i with Some i' => instr_eqb i' j | None => false end.
+
+(* a tested type has its row dumped *)
+Definition row_dumped (i : instr) : bool :=
   match i with IIsType y => is_some (row_of X y) | _ => true end.
+
+(* both (kept for the driver's diagnosis) *)
+Definition instr_ok (i j : instr) : bool := instr_img i j && row_dumped i.
 
 Definition chk_fun (f f' : nat) : bool :=
   match nth_error (x_funcs X) f, nth_error (x_funcs X') f' with
   | Some fd, Some fd' =>
-      Nat.eqb (xf_caps fd) (xf_caps fd') && forall2b instr_ok (xf_code fd) (xf_code fd') &&
+      Nat.eqb (xf_caps fd) (xf_caps fd') && forall2b instr_img (xf_code fd) (xf_code fd') &&
       maps_to (r_y rho) (xf_type fd) (xf_type fd')
   | _, _ => false
+  end.
+
+Definition rows_dumped (f : nat) : bool :=
+  match nth_error (x_funcs X) f with
+  | Some fd => forallb row_dumped (xf_code fd)
+  | None => true
   end.
 
 Definition chk_const (k k' : nat) : bool :=
@@ -413,7 +425,10 @@ Definition shape_info (t : xtuple) : Equal.tuple_info :=
 Definition canon_ok (Y : xprogram) : bool :=
   list_eqb Nat.eqb (x_canon Y) (Equal.compute_canonical (map shape_info (x_tuples Y))).
 
-Definition is_renaming : bool :=
+(* STRUCTURE: what the packaging step itself produces (tables and code are rho-images). Enough for
+   the lock-step simulation with IsType / Equal verdicts as outside inputs; proved to hold for the
+   models of tree_shake and merge_bytecode (vm/RemapShake.v, vm/RemapMerge.v). *)
+Definition struct_ok : bool :=
   maps_to (r_f rho) (x_entry X) (x_entry X') &&
   (* NIL and OK are built by IsType/Equal/Not themselves; nothing else may land on NIL *)
   maps_to (r_t rho) NIL NIL && maps_to (r_t rho) OK OK &&
@@ -426,9 +441,14 @@ Definition is_renaming : bool :=
   forall_map (r_r rho) chk_res &&
   (* injective where identity is compared (values_equal on functions and builtins) *)
   forall_map (r_f rho) (fun f f' => maps_to (i_f rho) f' f) &&
-  forall_map (r_b rho) (fun b b' => maps_to (i_b rho) b' b) &&
-  forall_map (r_y rho) chk_row &&
-  canon_ok X && canon_ok X'.
+  forall_map (r_b rho) (fun b b' => maps_to (i_b rho) b' b).
+
+(* RUN-TIME TABLES: what every loader recomputes (compute_type_compatibility): the rows of the
+   tested types are dumped and commute with the renaming. Validated on the real tables each run. *)
+Definition rows_ok : bool :=
+  forall_map (r_f rho) (fun f _ => rows_dumped f) && forall_map (r_y rho) chk_row.
+
+Definition is_renaming : bool := struct_ok && rows_ok && canon_ok X && canon_ok X'.
 
 End REN.
 
